@@ -35,14 +35,14 @@ impl KotoRead for Capture {}
 impl KotoWrite for Capture {
     fn write(&self, bytes: &[u8]) -> RtResult<()> {
         let mut o = self.out.borrow_mut();
-        if o.len() < 1 << 20 {
+        if o.len() < OUT_CAP {
             o.push_str(&String::from_utf8_lossy(bytes));
         }
         Ok(())
     }
     fn write_line(&self, s: &str) -> RtResult<()> {
         let mut o = self.out.borrow_mut();
-        if o.len() < 1 << 20 {
+        if o.len() < OUT_CAP {
             o.push_str(s);
             o.push('\n');
         }
@@ -52,6 +52,10 @@ impl KotoWrite for Capture {
         Ok(())
     }
 }
+
+/// captured output is cut at this size (runaway programs under a mutation); a run that reaches it
+/// is not compared
+const OUT_CAP: usize = 4 << 20;
 
 /// stdout, and Ok(Ok(value text)) | Ok(Err(error text)) | Err(panic message)
 fn run_real(src: &str) -> (String, Result<Result<String, String>, String>) {
@@ -193,6 +197,11 @@ impl Ctx {
         let (so, r) = run_real(&src);
         let real = canon_real(&so, &r);
         let model = self.drv.ask(&model_req("g", p));
+        if so.len() >= OUT_CAP && model.len() >= OUT_CAP / 2 {
+            // both sides print megabytes (nested loops over growing lists): output was cut, not compared
+            self.rep.bump("not_compared:output_larger_than_cap");
+            return (Verdict::Agree, src, real, model);
+        }
         if real == model {
             return (Verdict::Agree, src, real, model);
         }
@@ -613,13 +622,20 @@ impl<'a> MG<'a> {
                 E::Native(NatKind::Each, self.rng.below(avail as usize) as u32, Box::new(E::MkList(items)))
             }
             6 => E::Ret(Box::new(E::Lit(Lit::Int(1)))),
-            _ => {
-                if self.rng.chance(1, 2) {
-                    E::Brk
-                } else {
-                    E::Cont
+            _ => match self.rng.below(4) {
+                0 => E::Brk,
+                1 => E::Cont,
+                2 => E::BrkV(Box::new(E::Lit(Lit::Int(3)))),
+                _ => {
+                    // the break value is a call that may raise: it must still be caught by the try
+                    // blocks the break is about to leave (TryEnds come after the value's code)
+                    if avail > 0 {
+                        E::BrkV(Box::new(E::Call(self.rng.below(avail as usize) as u32, vec![E::Lit(Lit::Int(0))])))
+                    } else {
+                        E::Brk
+                    }
                 }
-            }
+            },
         }
     }
 }
@@ -1473,6 +1489,8 @@ enum E {
     ForL(u32, Box<E>, Box<E>),
     ForG(u32, u32, Vec<E>, Box<E>),
     Brk,
+    /// `break <e>` (the enclosing loop is rendered in value position)
+    BrkV(Box<E>),
     Cont,
     Ret(Box<E>),
     Try(Box<E>, Vec<(Option<Ty>, u32, E)>, Option<Box<E>>),
@@ -1600,6 +1618,7 @@ impl E {
                 b.sexp()
             ),
             E::Brk => "(brk)".into(),
+            E::BrkV(e) => format!("(brkv {})", e.sexp()),
             E::Cont => "(cont)".into(),
             E::Ret(e) => format!("(ret {})", e.sexp()),
             E::Try(b, cs, f) => {
@@ -1799,6 +1818,7 @@ fn parse_e(x: &Sx) -> Option<E> {
             E::ForG(a[0].num()?, a[1].num()?, parse_es(args)?, bx(&a[3])?)
         }
         ("brk", 0) => E::Brk,
+        ("brkv", 1) => E::BrkV(bx(&a[0])?),
         ("cont", 0) => E::Cont,
         ("ret", 1) => E::Ret(bx(&a[0])?),
         ("try", n) if n == 2 || n == 3 => {
@@ -1896,7 +1916,7 @@ impl Prog {
 /// a `break` that belongs to the loop whose body is `e` (not to a loop nested inside it)
 fn direct_brk(e: &E) -> bool {
     match e {
-        E::Brk => true,
+        E::Brk | E::BrkV(_) => true,
         E::Seq(es) => es.iter().any(direct_brk),
         E::If(_, t, el) => direct_brk(t) || direct_brk(el),
         E::Try(b, cs, f) => direct_brk(b) || cs.iter().any(|c| direct_brk(&c.2)) || f.as_ref().is_some_and(|f| direct_brk(f)),
@@ -1913,7 +1933,7 @@ fn reads_of(e: &E, out: &mut std::collections::HashSet<u32>) {
                 out.insert(*x);
             }
             E::Lit(_) | E::GVar(_) | E::MkObj(_) | E::Emit(_, None) | E::Brk | E::Cont | E::Fault(_) => {}
-            E::Assign(_, x) | E::Emit(_, Some(x)) | E::Ret(x) | E::Throw(x) | E::Native(_, _, x) => go(x, out),
+            E::Assign(_, x) | E::Emit(_, Some(x)) | E::Ret(x) | E::Throw(x) | E::Native(_, _, x) | E::BrkV(x) => go(x, out),
             E::MkList(es) | E::Seq(es) | E::Call(_, es) | E::EmitI(_, es) => es.iter().for_each(|x| go(x, out)),
             E::Index(a, b) | E::Push(a, b) | E::Bin(_, a, b) | E::ForL(_, a, b) => {
                 go(a, out);
@@ -1938,6 +1958,18 @@ fn reads_of(e: &E, out: &mut std::collections::HashSet<u32>) {
         }
     }
     go(e, out)
+}
+
+/// a `break <value>` that belongs to the loop whose body is `e`: that loop must be in value position
+fn direct_brkv(e: &E) -> bool {
+    match e {
+        E::BrkV(_) => true,
+        E::Seq(es) => es.iter().any(direct_brkv),
+        E::If(_, t, el) => direct_brkv(t) || direct_brkv(el),
+        E::Try(b, cs, f) => direct_brkv(b) || cs.iter().any(|c| direct_brkv(&c.2)) || f.as_ref().is_some_and(|f| direct_brkv(f)),
+        E::Assign(_, r) => direct_brkv(r),
+        _ => false,
+    }
 }
 
 struct Renderer<'a> {
@@ -2001,6 +2033,10 @@ impl<'a> Renderer<'a> {
                 let v: Option<Vec<String>> = es.iter().map(|e| self.inline(e)).collect();
                 format!("f{}({})", f, v?.join(", "))
             }
+            // value-position conditional: `(if c then a else b)`; a branch may be a `throw`
+            E::If(c, t, el) => format!("(if {} then {} else {})", self.inline(c)?, self.inline(t)?, self.inline(el)?),
+            E::Seq(es) if es.len() == 1 => self.inline(&es[0])?,
+            E::Throw(v) => format!("throw {}", self.inline(v)?),
             E::Native(k, f, l) => {
                 let l = self.inline_operand(l)?;
                 match k {
@@ -2031,17 +2067,42 @@ impl<'a> Renderer<'a> {
 
     /// `<name> = <e>` where e may be multi-line
     fn assign_to(&mut self, ind: usize, name: &str, e: &E) {
-        if let Some(s) = self.inline(e) {
+        let prefer_block = matches!(e, E::If(..)) && {
+            self.tmp += 1;
+            self.tmp % 2 == 0
+        };
+        if prefer_block {
+        } else if let Some(s) = self.inline(e) {
             self.line(ind, &format!("{} = {}", name, s));
             return;
         }
         match e {
             E::If(c, t, el) => {
                 let c = self.hoist(ind, c);
-                self.line(ind, &format!("{} = if {}", name, c));
-                self.block(ind + 1, t);
-                self.line(ind, "else");
-                self.block(ind + 1, el);
+                self.tmp += 1;
+                match self.tmp % 3 {
+                    0 => {
+                        self.line(ind, &format!("{} = if {}", name, c));
+                        self.block(ind + 1, t);
+                        self.line(ind, "else");
+                        self.block(ind + 1, el);
+                    }
+                    1 => {
+                        self.line(ind, &format!("{} = switch", name));
+                        self.line(ind + 1, &format!("{} then", c));
+                        self.block(ind + 2, t);
+                        self.line(ind + 1, "else");
+                        self.block(ind + 2, el);
+                    }
+                    _ => {
+                        // the condition is truthy/falsy, `match` compares: normalise to a Bool first
+                        self.line(ind, &format!("{} = match (if {} then true else false)", name, c));
+                        self.line(ind + 1, "true then");
+                        self.block(ind + 2, t);
+                        self.line(ind + 1, "else");
+                        self.block(ind + 2, el);
+                    }
+                }
             }
             E::Try(..) => {
                 self.try_(ind, &format!("{} = try", name), e);
@@ -2097,7 +2158,7 @@ impl<'a> Renderer<'a> {
     /// compiler clears the catch points of the try blocks a break leaves *after* evaluating the value.
     fn loop_head(&mut self, body: &E) -> String {
         self.tmp += 1;
-        let use_val = direct_brk(body) && self.tmp % 2 == 0;
+        let use_val = direct_brkv(body) || (direct_brk(body) && self.tmp % 2 == 0);
         self.brk_val.push(use_val);
         if use_val { format!("lv{}_ = ", self.tmp) } else { String::new() }
     }
@@ -2108,6 +2169,18 @@ impl<'a> Renderer<'a> {
 
     fn stmt(&mut self, ind: usize, e: &E) {
         match e {
+            E::Assign(x, rhs)
+                if matches!(&**rhs, E::Bin(Op::Add, a, b) if **a == E::Var(*x) && matches!(**b, E::If(..) | E::Var(_) | E::Lit(Lit::Int(_))) && self.inline(b).is_some()) && {
+                    self.tmp += 1;
+                    self.tmp % 2 == 0
+                } =>
+            {
+                // `v += e` for `v = v + e`
+                if let E::Bin(_, _, b) = &**rhs {
+                    let b = self.inline(b).unwrap();
+                    self.line(ind, &format!("v{} += {}", x, b));
+                }
+            }
             E::Assign(x, rhs) => {
                 if Self::is_call_tail(rhs) && !self.opts.direct_call_assign {
                     // never let a call's result register be an observable local (shape of F-C04-2)
@@ -2187,6 +2260,10 @@ impl<'a> Renderer<'a> {
                 } else {
                     self.line(ind, "break")
                 }
+            }
+            E::BrkV(v) => {
+                let v = self.hoist(ind, v);
+                self.line(ind, &format!("break {}", v));
             }
             E::Cont => self.line(ind, "continue"),
             E::Ret(v) => {
@@ -2271,7 +2348,7 @@ fn unread_catch_vars(bodies: &[&E]) -> std::collections::HashSet<u32> {
 fn collect_tries(e: &E, f: &mut dyn FnMut(&E)) {
     match e {
         E::Lit(_) | E::Var(_) | E::GVar(_) | E::MkObj(_) | E::Emit(_, None) | E::Brk | E::Cont | E::Fault(_) => {}
-        E::Assign(_, x) | E::Emit(_, Some(x)) | E::Ret(x) | E::Throw(x) | E::Native(_, _, x) => collect_tries(x, f),
+        E::Assign(_, x) | E::Emit(_, Some(x)) | E::Ret(x) | E::Throw(x) | E::Native(_, _, x) | E::BrkV(x) => collect_tries(x, f),
         E::MkList(es) | E::Seq(es) | E::Call(_, es) | E::EmitI(_, es) => es.iter().for_each(|x| collect_tries(x, f)),
         E::Index(a, b) | E::Push(a, b) | E::Bin(_, a, b) | E::ForL(_, a, b) => {
             collect_tries(a, f);
@@ -2373,7 +2450,7 @@ struct Shape {
 fn can_fail(e: &E) -> bool {
     match e {
         E::Lit(_) | E::Var(_) | E::GVar(_) | E::MkObj(_) | E::Emit(_, None) | E::Brk | E::Cont => false,
-        E::Assign(_, e) | E::Emit(_, Some(e)) | E::Ret(e) => can_fail(e),
+        E::Assign(_, e) | E::Emit(_, Some(e)) | E::Ret(e) | E::BrkV(e) => can_fail(e),
         E::MkList(es) | E::Seq(es) | E::EmitI(_, es) => es.iter().any(can_fail),
         E::Push(l, v) => !matches!(**l, E::Var(_) | E::GVar(_)) || can_fail(v),
         E::If(c, t, el) => can_fail(c) || can_fail(t) || can_fail(el),
@@ -2394,7 +2471,8 @@ fn shape_walk(e: &E, s: Shape) -> Option<&'static str> {
                 None
             }
         }
-        E::Brk | E::Cont => {
+        E::BrkV(v) if sub(v, s).is_some() => sub(v, s),
+        E::Brk | E::Cont | E::BrkV(_) => {
             if !s.in_loop {
                 Some("envelope:break/continue outside a loop")
             } else if s.fin_region && s.loops_since_fin == 0 {
@@ -2527,6 +2605,10 @@ fn feat_walk(e: &E, depth: u32, f: &mut Features) {
             kids.push(v);
         }
         E::Assign(_, x) | E::Emit(_, Some(x)) => kids.push(x),
+        E::BrkV(x) => {
+            f.kinds.insert("break-with-value");
+            kids.push(x)
+        }
         E::Ret(x) => {
             f.kinds.insert("return");
             kids.push(x)
@@ -2637,7 +2719,7 @@ fn calls_of(e: &E, out: &mut Vec<u32>) {
             calls_of(b, out);
         }
         E::Lit(_) | E::Var(_) | E::GVar(_) | E::MkObj(_) | E::Emit(_, None) | E::Brk | E::Cont | E::Fault(_) => {}
-        E::Assign(_, x) | E::Emit(_, Some(x)) | E::Ret(x) | E::Throw(x) => calls_of(x, out),
+        E::Assign(_, x) | E::Emit(_, Some(x)) | E::Ret(x) | E::Throw(x) | E::BrkV(x) => calls_of(x, out),
         E::MkList(es) | E::Seq(es) | E::EmitI(_, es) => es.iter().for_each(|x| calls_of(x, out)),
         E::Index(a, b) | E::Push(a, b) | E::Bin(_, a, b) => {
             calls_of(a, out);
@@ -2673,7 +2755,7 @@ fn has_node(e: &E, pred: &dyn Fn(&E) -> bool) -> bool {
     }
     match e {
         E::Lit(_) | E::Var(_) | E::GVar(_) | E::MkObj(_) | E::Emit(_, None) | E::Brk | E::Cont | E::Fault(_) => false,
-        E::Assign(_, x) | E::Emit(_, Some(x)) | E::Ret(x) | E::Throw(x) | E::Native(_, _, x) => has_node(x, pred),
+        E::Assign(_, x) | E::Emit(_, Some(x)) | E::Ret(x) | E::Throw(x) | E::Native(_, _, x) | E::BrkV(x) => has_node(x, pred),
         E::MkList(es) | E::Seq(es) | E::Call(_, es) | E::EmitI(_, es) => es.iter().any(|x| has_node(x, pred)),
         E::Index(a, b) | E::Push(a, b) | E::Bin(_, a, b) | E::ForL(_, a, b) => has_node(a, pred) || has_node(b, pred),
         E::SetIdx(a, b, c) | E::If(a, b, c) => has_node(a, pred) || has_node(b, pred) || has_node(c, pred),
@@ -3059,7 +3141,8 @@ impl<'a> G<'a> {
         if cx.no_escape || d == 0 {
             return self.int_atom(fr);
         }
-        match self.rng.weighted(&[4, 3, 2, 2, 1]) {
+        match self.rng.weighted(&[4, 3, 2, 2, 1, 2]) {
+            5 => self.value_if(fr, cx, d - 1),
             0 => self.int_atom(fr),
             1 => E::Bin(Op::Add, Box::new(self.int_expr(fr, cx, d - 1)), Box::new(self.int_expr(fr, cx, d - 1))),
             2 => {
@@ -3085,6 +3168,41 @@ impl<'a> G<'a> {
                 }
             }
         }
+    }
+
+    /// `if c then A else B` in value position where a branch may be a `throw` (of any value kind) or
+    /// a failing expression: the error is raised while the value of an operand / right-hand side /
+    /// argument / element / hole is being computed
+    fn value_if(&mut self, fr: &Frame, cx: Cx, d: u32) -> E {
+        let c = E::Bin(Op::Lt, Box::new(self.int_atom(fr)), Box::new(self.int_atom(fr)));
+        let mut branch = |g: &mut Self| -> E {
+            match g.rng.weighted(&[3, 3, 2]) {
+                0 => g.int_atom(fr),
+                1 => E::Throw(Box::new(g.throw_value(fr))),
+                _ => g.int_expr(fr, cx, d.min(1)),
+            }
+        };
+        let t = branch(self);
+        let e = branch(self);
+        E::If(Box::new(c), Box::new(E::Seq(vec![t])), Box::new(E::Seq(vec![e])))
+    }
+
+    /// the same with block branches (statements before the value / the throw)
+    fn value_if_block(&mut self, fr: &Frame, cx: Cx) -> E {
+        let c = E::Bin(Op::Lt, Box::new(self.int_atom(fr)), Box::new(self.int_atom(fr)));
+        let mut c2 = cx;
+        c2.depth = cx.depth.saturating_sub(1);
+        let mut branch = |g: &mut Self| -> E {
+            let tail = match g.rng.weighted(&[3, 3, 2]) {
+                0 => g.int_atom(fr),
+                1 => E::Throw(Box::new(g.throw_value(fr))),
+                _ => g.fault(fr, cx),
+            };
+            g.block(fr, c2, 0, 2, Some(tail))
+        };
+        let t = branch(self);
+        let e = branch(self);
+        E::If(Box::new(c), Box::new(t), Box::new(e))
     }
 
     fn pick_def(&mut self, cx: Cx, pred: impl Fn(&DefInfo) -> bool) -> Option<u32> {
@@ -3487,6 +3605,8 @@ impl<'a> G<'a> {
                 if cx.in_loop_ok {
                     opts.push(E::Brk);
                     opts.push(E::Cont);
+                    opts.push(E::BrkV(Box::new(self.int_expr(fr, cx, 2))));
+                    opts.push(E::BrkV(Box::new(self.value_if(fr, cx, 1))));
                 }
                 if cx.ret_ok {
                     opts.push(E::Ret(Box::new(self.int_safe(fr))));
@@ -3495,7 +3615,20 @@ impl<'a> G<'a> {
                 let t = self.emit_plain();
                 E::If(Box::new(c), Box::new(E::Seq(vec![t, x])), Box::new(E::Seq(vec![])))
             }
-            6 => match self.rng.below(3) {
+            6 => match self.rng.below(6) {
+                3 => {
+                    let v = if self.rng.chance(1, 2) { fr.ia } else { fr.ib };
+                    E::Assign(v, Box::new(self.value_if_block(fr, cx)))
+                }
+                4 => {
+                    let v = if self.rng.chance(1, 2) { fr.ia } else { fr.ib };
+                    E::Assign(v, Box::new(E::Bin(Op::Add, Box::new(E::Var(v)), Box::new(self.value_if(fr, cx, 1)))))
+                }
+                5 => E::SetIdx(
+                    Box::new(E::Var(fr.lst)),
+                    Box::new(E::Lit(Lit::Int(self.rng.range(0, 2)))),
+                    Box::new(self.value_if(fr, cx, 1)),
+                ),
                 0 => {
                     let n = 1 + self.rng.below(3);
                     let items = (0..n).map(|_| self.int_expr(fr, cx, 1)).collect();
